@@ -1,0 +1,10 @@
+//go:build !verif
+
+package cache
+
+// Verification hooks (see verif_on.go). With the `verif` build tag off they are
+// empty and inlined away.
+
+func verifNow() (int64, bool) { return 0, false }
+
+func verifPoint(string, *httpCache) {}
